@@ -1189,6 +1189,8 @@ class BareServer():
         """
         Close and remove connection and associated steward given by ca
         """
+        if ca in self.servant.ixes:
+            self.servant.ixes[ca].serviceSends()  # send final bytes to socket
         self.servant.removeIx(ca)
         del self.stewards[ca]
 
